@@ -72,6 +72,37 @@ pub fn exec(p: &[&str], scratch: &str) -> String {
             }
             format!("{}|{}{}", tr.join(","), hex(&std::fs::read(&out).unwrap()), layout)
         }
+        "hooks" => {
+            // hooks <inner file-level op ...>: run the inner op with the event log on; every logged unchecked index
+            // must lie inside its buffer, every mapped write inside the mapping, and the mapped rows must tile the
+            // file exactly (no gap, no overlap, no byte unwritten)
+            verif::take_log();
+            verif::set_logging(true);
+            let inner = crate::fileops::exec(&p[1..], scratch);
+            verif::set_logging(false);
+            let log = verif::take_log();
+            if inner.starts_with("ERR") || inner.starts_with("UNKNOWN") { return format!("INNER {}", inner); }
+            let mut index = 0usize;
+            let mut writes: Vec<(usize, usize, usize)> = vec![];
+            for e in &log {
+                match e {
+                    Ev::Index { site, idx, len } => { index += 1; if idx >= len { return format!("OOB index site={} idx={} len={}", site, idx, len); } }
+                    Ev::Write { pos, len, cap } => { if pos + len > *cap { return format!("OOB write pos={} len={} cap={}", pos, len, cap); } writes.push((*pos, *len, *cap)); }
+                    _ => {}
+                }
+            }
+            let mut tiled = 1;
+            if !writes.is_empty() {
+                let cap = writes[0].2;
+                writes.sort();
+                let mut at = 0usize;
+                for (pos, len, _) in &writes { if *pos != at { tiled = 0; } at = pos + len; }
+                if at != cap { tiled = 0; }
+                // the mapped file itself: every byte written (no NUL left)
+                if p[1] == "ofile" { if let Ok(b) = std::fs::read(format!("{}/case/out.vec", scratch)) { if b.contains(&0u8) || b.len() != cap { tiled = 0; } } }
+            }
+            format!("oob=0|tiled={}|writes={}|index={}", tiled, writes.len(), index)
+        }
         _ => format!("UNKNOWN-OP {}", p[0]),
     }
 }
